@@ -46,6 +46,9 @@ def run(tier: str) -> int:
             # a solver object that exists before the fork and is dropped / reset by one member afterwards
             ("bv3", "Solver", {}, [("add", "x!=0"), ("add", "x+y==5"), ("sat", "none"), ("sol", "x", 5, "none")], [("downsize",), ("sat", "x==6"), ("sol", "x", 0, "none"), ("eval", "x", 1, "none"), ("add", "x==3")], 3, 2, 1, "downsize"),
             ("bv3", "SolverCacheless", {}, [("add", "x!=0"), ("sat", "none")], [("downsize",), ("min", "x", "u", "none"), ("sol", "x", 0, "none"), ("add", "x==3")], 2, 2, 1, "downsize"),
+            # the same parent branched twice (the later branch must be as private as the first)
+            ("bv3", "SolverCacheless", {}, [("add", "x!=0"), ("sat", "none")], [("add", "x==3"), ("sat", "none"), ("sol", "x", 5, "none"), ("min", "x", "u", "none")], 2, 4, 2, "twice"),
+            ("bv3", "Solver", {}, [("add", "x!=0"), ("sat", "none")], [("add", "x==3"), ("sat", "none"), ("sol", "x", 5, "none")], 2, 4, 2, "twice"),
             ("bv3", "SolverHybrid", {}, q_pre3[:3], q_post3[:5], 1, 2, 1, ""),
             ("bv3", "SolverReplacement", {}, [("add", "x!=0"), ("eval", "x", 9, "none")], q_post3[:5], 1, 2, 1, ""),
             ("bv3", "SolverReplacementVSA", {"approx": True}, [("add", "x<u5"), ("add", "x!=0"), ("max", "x", "u", "none")], vsa_post, 2, 3, 1, ""),
